@@ -1323,6 +1323,24 @@ main(int argc, char *argv[])
                 dump_fsg(NULL, "jsgf", ret);
             }
             free(text);
+        } else if (!strcmp(cmd, "jsgffile")) { /* jsgffile <path>: decoder_set_jsgf_file */
+            jsgf_t *j;
+            int ret;
+            if (sscanf(line, "%*s %s", arg) != 1)
+                return 3;
+            j = jsgf_parse_file(arg, NULL);
+            if (j) {
+                jsgf_rule_t *rule = jsgf_get_public_rule(j);
+                fsg_model_t *g = rule ? jsgf_build_fsg(j, rule, d->lmath, (float32)config_float(d->config, "lw")) : NULL;
+                ret = decoder_set_jsgf_file(d, arg);
+                dump_fsg(g, "jsgf", ret);
+                if (g)
+                    fsg_model_free(g);
+                jsgf_grammar_free(j);
+            } else {
+                ret = decoder_set_jsgf_file(d, arg);
+                dump_fsg(NULL, "jsgf", ret);
+            }
         } else if (!strcmp(cmd, "fsgfile") || !strcmp(cmd, "fsgtext")) {
             /* fsgfile <path> reads through fsg_model_readfile, fsgtext <hex> through the in-memory reader */
             fsg_model_t *g = NULL, *g2 = NULL;
@@ -1521,6 +1539,15 @@ main(int argc, char *argv[])
             } else if (!strcmp(fn, "reinit")) {
                 int rc = decoder_reinit(d, NULL);
                 strcpy(cls, rc == 0 ? "ok" : "err");
+            } else if (!strcmp(fn, "reinitfeat")) { /* front end and feature computation rebuilt from the configuration */
+                int rc = decoder_reinit_feat(d, NULL);
+                strcpy(cls, rc == 0 ? "ok" : "err");
+            } else if (!strcmp(fn, "setlogfile")) { /* x: 0 NULL (standard output), 1 a writable file, 2 a path that cannot be opened */
+                int rc = decoder_set_logfile(d, x == 0 ? NULL : x == 1 ? "/dev/null" : "/nonexistent-directory/log.txt");
+                strcpy(cls, rc == 0 ? "ok" : "err");
+            } else if (!strcmp(fn, "prob")) {
+                int32 pr = decoder_prob(d);
+                strcpy(cls, pr <= 0 ? "ok" : "err");
             } else if (!strcmp(fn, "lookup")) { /* x: 0 known word, 1 unknown, 2 empty */
                 char *pr = decoder_lookup_word(d, x == 0 ? "forward" : x == 1 ? "nosuchword" : "");
                 strcpy(cls, pr ? "obj" : "null");
